@@ -261,8 +261,17 @@ def _serverbug(got: bytes, conn: Any) -> bool:
     return bool(_SBUG.search(got)) and (conn.done or conn.writer.closed)
 
 
+def _budget_hit_inside_server(conn: Any) -> None:
+    """asyncio keeps a BaseException raised inside a task in the task: the
+    CPU-budget signal then looks like an internal server error. Hand it on to
+    _with_budget, which decides (inconclusive unless confirmed)."""
+    if isinstance(conn.exception, CpuBudget):
+        raise CpuBudget().with_traceback(conn.exception.__traceback__)
+
+
 def _judge(out: CaseOut, data: bytes, got: bytes, conn: Any,
            state: int) -> None:
+    _budget_hit_inside_server(conn)
     desc = f'state={state} sent={data[:300]!r} got={got[-300:]!r}'
     if _serverbug(got, conn):
         exc = conn.exception
@@ -464,6 +473,7 @@ def _message_case(case: dict[str, Any], out: CaseOut) -> None:
 
 def _judge_simple(out: CaseOut, what: bytes, got: bytes, conn: Any,
                   msg: bytes, tag: bytes | None = None) -> bool:
+    _budget_hit_inside_server(conn)
     desc = f'{what!r} on message {msg[:400]!r} -> {got[-200:]!r}'
     if _serverbug(got, conn) or (conn.done and conn.exception is not None):
         exc = conn.exception
@@ -512,6 +522,7 @@ def _sieve_case(case: dict[str, Any], out: CaseOut) -> None:
             got = conn.cmd(data)
             desc = f'sieve state={case["state"]} sent={data[:300]!r} ' \
                    f'got={got[-200:]!r}'
+            _budget_hit_inside_server(conn)
             if conn.done and conn.exception is not None:
                 exc = conn.exception
                 out.fail(f'sieve-task-died:{type(exc).__name__}:'
